@@ -182,7 +182,10 @@ func (x *Exec) havocCall(fr *Frame, st *State, sig *types.Signature, why string,
 	x.checkTypeInvs(fr, st, "before call")
 	st.dirty = nil
 	st.invSeen = map[string]bool{}
-	x.havoc(st, true, nil)
+	for _, v := range fr.vals {
+		_ = v
+	}
+	x.havocCallee(st, true, nil, nil, false)
 	na := x.fresh("alloc", sInt)
 	st.assume(app(sBool, "<=", st.alloc, na))
 	st.alloc = na
@@ -504,15 +507,20 @@ func (x *Exec) applyContract(fr *Frame, st *State, c *Contract, sig *types.Signa
 	x.checkTypeInvs(fr, st, "before call of "+short)
 	st.dirty = nil
 	st.invSeen = map[string]bool{}
+	for _, a := range args {
+		x.escape(st, a, true)
+	}
 	pre := st.clone()
 	pre.noSide = true
 	// frame
+	x.byCall = true
 	if !c.ModSet {
 		x.note("callee " + key + " has no modifies clause: whole heap forgotten at call")
-		x.havoc(st, true, nil)
+		x.havocCallee(st, true, nil, nil, true)
 	} else {
 		x.applyModifies(ev, st, c.Modifies)
 	}
+	x.byCall = false
 	na := x.fresh("alloc", sInt)
 	st.assume(app(sBool, "<=", st.alloc, na))
 	st.alloc = na
@@ -610,13 +618,13 @@ func (x *Exec) applyModifies(ev *specEnv, st *State, items []string) {
 	for _, it := range items {
 		switch {
 		case it == "everything":
-			x.havoc(st, true, nil)
+			x.havocCallee(st, true, nil, nil, x.byCall)
 		case strings.HasPrefix(it, "allbut "):
-			x.havocExcept(st, true, nil, x.frameSet(strings.TrimSpace(strings.TrimPrefix(it, "allbut ")), ev.c))
+			x.havocCallee(st, true, nil, x.frameSet(strings.TrimSpace(strings.TrimPrefix(it, "allbut ")), ev.c), x.byCall)
 		case strings.HasPrefix(it, "class "):
-			x.havoc(st, false, []string{strings.TrimSpace(strings.TrimPrefix(it, "class "))})
+			x.havocCallee(st, false, []string{strings.TrimSpace(strings.TrimPrefix(it, "class "))}, nil, x.byCall)
 		case strings.HasPrefix(it, "owned "):
-			x.havoc(st, false, x.ownedClasses(strings.TrimSpace(strings.TrimPrefix(it, "owned ")), ev.c))
+			x.havocCallee(st, false, x.ownedClasses(strings.TrimSpace(strings.TrimPrefix(it, "owned ")), ev.c), nil, x.byCall)
 		default:
 			x.havocLocation(ev, st, it)
 		}
